@@ -114,8 +114,9 @@ def gen_case(rng, force_shape=None):
         opts["DT_PHASE_CHANGE"] = rng.choice([0.5, 1.0, 0.0, -0.25, 0.125])
     case = dict(streams=streams, utilities=utils, options=opts)
     if rng.random() < 0.10 and all("/" not in z for z in zones) and shape != "seplabel":
-        kids = [dict(name=z, type="Process Zone", children=None) for z in zones]
-        case["zone_tree"] = dict(name="Works", type="Site", children=kids)
+        pad = (lambda t: t) if rng.random() < 0.6 else (lambda t: rng.choice([" " + t, t + " ", " " + t + "  "]))   # type strings are stripped on input
+        kids = [dict(name=z, type=pad("Process Zone"), children=None) for z in zones]
+        case["zone_tree"] = dict(name="Works", type=pad("Site"), children=kids)
     elif rng.random() < 0.06 and shape != "seplabel":
         # a user tree that consists of the root only (children omitted, null or empty) with every stream labelled with the root's own name
         for s in streams:
@@ -278,6 +279,26 @@ def has_zero_duty_zone(case):
     return bool(case["options"].get("DO_DIRECT_OPERATION_TARGETING")) and "zone_tree" not in case and any(eff(s) == 0.0 for s in case["streams"])
 
 
+def glide_utility_inside_process_range(case):
+    """Trigger of finding D39 seen from the input: a user utility with a glide of at least 1 K whose SHIFTED range overlaps the shifted
+    range of the process streams by more than 1 K."""
+    sh = []
+    for x in case["streams"]:
+        d = x["dt_cont"] if x["t_supply"] < x["t_target"] else -x["dt_cont"]
+        sh += [x["t_supply"] + d, x["t_target"] + d]
+    if not sh:
+        return False
+    lo, hi = min(sh), max(sh)
+    for u in case["utilities"]:
+        a, b = sorted((u["t_supply"], u["t_target"]))
+        if b - a < 1.0:
+            continue
+        for d in ((-u["dt_cont"],) if u["type"] == "Hot" else (u["dt_cont"],) if u["type"] == "Cold" else (-u["dt_cont"], u["dt_cont"])):
+            if min(b + d, hi) - max(a + d, lo) > 1.0:
+                return True
+    return False
+
+
 def classify_raise(item, ob, verdict):
     """Narrow kinds for the listed findings; anything else is `service-raises` (a violation)."""
     o = item["case"]["options"]
@@ -291,6 +312,10 @@ def classify_raise(item, ob, verdict):
     if o.get("DO_AREA_TARGETING") and ob["exc"] == "ValueError" and "get_area_targets" in ob["frames"]:
         if ob["msg"].startswith("Invalid temperature differences") and min(s["dt_cont"] for s in item["case"]["streams"]) == 0.0:
             return "area-targeting-degenerate-raises"
+        if ob["msg"].startswith("Invalid temperature differences") and glide_utility_inside_process_range(item["case"]):
+            # consequence of finding D39: a gliding user utility whose range reaches into the process range is given more duty than the
+            # pocket-free GCC allows at some level, the balanced curves cross and an end difference is negative
+            return "area-targeting-glide-utility-crosses"
         if ob["msg"].startswith("Composite curve arrays cannot be empty") and has_zero_duty_zone(item["case"]):
             return "area-targeting-zero-duty-zone-raises"
         if ob["msg"].startswith("The temperature driving force plot requires the inputted composite curves to be balanced") \
@@ -425,6 +450,12 @@ def service_suite(ctx):
              shape="gen", vu=False),                                                                                                       # D42: a declared zone without streams
         dict(case=dict(streams=[S("Z0", "Hg", 170.0, 100.0, 800.0, 5.0), S("Z0", "Cg", 150.0, 220.0, 500.0, 5.0)],
                        utilities=[U("CWg", "Cold", 85.0, 160.0, 5.0, 2.0)], options=dict(DO_AREA_TARGETING=True)), shape="glidecw", vu=False),   # D24 consequence (open finding)
+        dict(case=dict(streams=[S("Z0", "S2", 237.0, 183.0, 27.0, 5.0, 2.0), S("Z0", "S3", 133.5, 121.0, 25.0, 2.5, 1.0)],
+                       utilities=[U("CU0", "Cold", 120.0, 160.0, 0.0, 5.0)], options=dict(DO_AREA_TARGETING=True)), shape="gen", vu=False),   # D39 consequence (open finding)
+        dict(case=dict(streams=[S("Z0", "H", 200.0, 100.0, 100.0), S("Z1", "C", 50.0, 150.0, 80.0)], utilities=[], options={},
+                       zone_tree=dict(name="Works", type="Site ", children=[dict(name="Z0", type=" Process Zone", children=None),
+                                                                            dict(name="Z1", type="Process Zone  ", children=None)])),
+             shape="gen", vu=False),                                      # type strings with surrounding blanks
         dict(case=dict(streams=[S("Works", "H", 200.0, 100.0, 100.0), S("Works", "C", 50.0, 150.0, 80.0)], utilities=[], options={},
                        zone_tree=dict(name="Works", type="Site")), shape="gen", vu=False),             # root-only user tree, children omitted, streams labelled with the root
         dict(case=dict(streams=[S("Works", "H", 200.0, 100.0, 100.0), S("Works", "C", 50.0, 150.0, 80.0)], utilities=[], options={},
